@@ -1,9 +1,53 @@
-"""How a pot is awarded at showdown (C02, C18), written from the property statement.
+"""How the pots are formed and awarded (C02, C18), written from the property statement.
 
-Per board and per hand type IN PLAY -- a type for which at least one contender holds a hand -- the
-pot (or its share) goes to the holder(s) of the strongest hand, ties sharing equally.  A hand type
-nobody qualifies for (e.g. no qualifying low) gets no part: the remaining types divide the pot.
+Forming (side pots).  c[i] is what player i has in the pot(s) (collected chips, net of an untrimmed ante:
+untrimmed antes are one common layer every live player contends for), p[i] the same plus what is
+still in front of him.  The statement's rules -- every chip goes to a player still in the hand who
+contributed at least up to the level of the pot the chip belongs to; nobody wins from an opponent more
+than he himself put in -- say, for a player j still in the hand, exactly how much he contends for:
+
+        stake(j)  =  sum_i  min(c[i], p[j])   (+ the ante layer)
+
+Awarding.  Per board and per hand type IN PLAY -- a type for which at least one contender of THAT pot
+holds a hand -- the pot's share goes to the holder(s) of the strongest hand among its contenders, ties
+sharing equally with the odd chips to the earliest position.  A hand type no contender qualifies for
+(e.g. no qualifying low) gets no part: the remaining types divide the share.
 """
+
+
+def stake(c, p, j, ante_layer):
+    """what player j contends for"""
+    return sum(c[i] if c[i] < p[j] else p[j] for i in range(len(c))) + ante_layer
+
+
+def divide(amount, k):
+    """amount split in k equal parts, the odd chips going to the first part (integers; exact division otherwise)"""
+    q = amount // k
+    return tuple(q + (amount - q * k if i == 0 else 0) for i in range(k))
+
+
+def types_in_play(hands_of_type, contenders):
+    """hands_of_type[t][i]: player i's hand of type t or None"""
+    return tuple(t for t in range(len(hands_of_type)) if any(hands_of_type[t][i] is not None for i in contenders))
+
+
+def winners(hands, contenders):
+    """the contenders holding the strongest hand (when nobody holds one: all of them -- cannot happen for a type in play)"""
+    held = [hands[i] for i in contenders if hands[i] is not None]
+    if not held:
+        return tuple(contenders)
+    best = held[0]
+    for h in held:
+        if h > best:
+            best = h
+    return tuple(i for i in contenders if hands[i] is not None and not (hands[i] < best))
+
+
+def award(amount, hands, contenders, n):
+    """per-player vector of what one (sub-)pot pays: equal shares, odd chips to the earliest position"""
+    w = winners(hands, contenders)
+    parts = divide(amount, len(w))
+    return tuple(sum(parts[k] for k in range(len(w)) if w[k] == i) for i in range(n))
 
 
 def showdown_split(hands_by_type, player_count):
@@ -12,8 +56,8 @@ def showdown_split(hands_by_type, player_count):
     in_play = [hands for hands in hands_by_type if any(h is not None for h in hands)]
     shares = [0 for _ in range(player_count)]
     for hands in in_play:
-        winners = [i for i in range(player_count)
-                   if hands[i] is not None and all(h is None or h <= hands[i] for h in hands)]
-        for i in winners:
-            shares[i] = shares[i] + 1 / (len(in_play) * len(winners))
+        winners_ = [i for i in range(player_count)
+                    if hands[i] is not None and all(h is None or h <= hands[i] for h in hands)]
+        for i in winners_:
+            shares[i] = shares[i] + 1 / (len(in_play) * len(winners_))
     return shares
